@@ -28,6 +28,8 @@ VARIANTS = {
     # plain `char` unsigned, as on arm / aarch64 / ppc / s390
     "uchar": (["INCLUDES=-funsigned-char"], ["-funsigned-char"]),
     "rfc5322+uchar": (["RFC6531_FOLLOW_RFC5322=ON", "INCLUDES=-funsigned-char"], ["-DRFC6531_FOLLOW_RFC5322", "-funsigned-char"]),
+    # the EAV_EXTRA members in a release build (assertions compiled out)
+    "extra+ndebug": (["INCLUDES=-DEAV_EXTRA -DNDEBUG"], ["-DEAV_EXTRA", "-DNDEBUG"]),
     # README's command line for systems without pkg-config data (`make FORCE_IDN=idn2 DEFS="-DHAVE_LIBIDN2" LIBS="-lidn2"`), with the options
     "rfc20+rfc5322+underscore@readme": (["DEFS=-DHAVE_LIBIDN2", "LIBS=-lidn2", "RFC6531_FOLLOW_RFC20=ON", "RFC6531_FOLLOW_RFC5322=ON", "LABELS_ALLOW_UNDERSCORE=ON"],
                                         ["-DRFC6531_FOLLOW_RFC20", "-DRFC6531_FOLLOW_RFC5322", "-DLABELS_ALLOW_UNDERSCORE"]),
